@@ -73,12 +73,20 @@ def run_case(ctx, res, tag, text, cmd, nlay, stdin_cmds=None):
         with open(path, 'wb') as f:
             f.write(text if isinstance(text, bytes) else text.encode('utf-8', 'surrogateescape'))
         argv = pre + [lib.ledger_bin(), '--init-file', '/dev/null', '-f', path, '--now', '2021/06/15'] + cmd
-        try:
-            p = subprocess.run(argv, cwd=d, env=lib.ledger_env(env), input=stdin_cmds, timeout=60,
-                               stdout=subprocess.PIPE, stderr=subprocess.PIPE)
-            st, so, se = p.returncode, p.stdout, p.stderr
-        except subprocess.TimeoutExpired:
-            st, so, se = 'timeout', b'', b''
+        st = 'timeout'
+        for limit in (60, 300):          # a run that exceeds the limit on a loaded machine is repeated once with a longer one
+            try:
+                p = subprocess.run(argv, cwd=d, env=lib.ledger_env(env), input=stdin_cmds, timeout=limit,
+                                   stdout=subprocess.PIPE, stderr=subprocess.PIPE)
+                st, so, se = p.returncode, p.stdout, p.stderr
+                break
+            except subprocess.TimeoutExpired:
+                st, so, se = 'timeout', b'', b''
+        if st == 'timeout':
+            # how long a run takes is not part of its output: a layout that never finished says nothing about determinism
+            res.count('layout-timed-out')
+            res.notes.append('timed out twice (60 s, 300 s): %s %s layout %d' % (tag, ' '.join(cmd)[:40], li))
+            continue
         if pre and st != 'timeout' and b'setarch' in se and st != 0 and li % 2 == 1 and b'Operation not permitted' in se:
             continue                     # setarch not allowed here: layout skipped
         key = (st, hashlib.sha256(normalise(so, path, cmd)).hexdigest(), hashlib.sha256(normalise(se, path, cmd)).hexdigest())
